@@ -20,6 +20,7 @@ REGISTRY = [
     ("gen_c03", "OpcodeSig.v"),
     ("gen_c06", "SlotFlags.v"),
     ("gen_c02", "FastPaths.v"),
+    ("gen_c02b", "IndexPaths.v"),
 ]
 
 
